@@ -34,7 +34,8 @@ SHARDS = {"quick": 8, "thorough": 16}
 TIMEOUT = {"quick": 400, "thorough": 3400}
 FLOORS = {"oracle.control_request_answered": 300, "oracle.data_rejected_when_not_selected": 60,
           "oracle.data_delivered_when_selected": 60, "oracle.state_samples": 1500, "race.rounds": 20,
-          "histories.passive": 30, "histories.active": 30, "oracle.reply_routing_vs_selected_state": 20}
+          "histories.passive": 30, "histories.active": 30, "oracle.reply_routing_vs_selected_state": 20,
+          "link_lost_inside_a_frame": 20}
 
 NC, NS, SEL = "NOT_CONNECTED", "CONNECTED_NOT_SELECTED", "CONNECTED_SELECTED"
 REQ_RSP = {wire.SELECT_REQ: wire.SELECT_RSP, wire.DESELECT_REQ: wire.DESELECT_RSP, wire.LINKTEST_REQ: wire.LINKTEST_RSP}
@@ -127,8 +128,21 @@ class Run:
             self.rig.quiesce(2.0)
         self.check_state("connect")
 
+    def feed_partial_frame(self):
+        """The link goes away in the middle of an inbound message: a proper prefix (length field complete or not)."""
+        rng = self.ctx.rng
+        frame = wire.hsms_data(1, 1, True, next(self.sysgen), rng.randbytes(rng.choice([0, 30, 300])))
+        cut = rng.choice([1, 3, 4, 5, 13, 14, len(frame) - 1, rng.randint(1, len(frame) - 1)])
+        cut = max(1, min(cut, len(frame) - 1))
+        self.hist.append(f"partial frame ({cut} of {len(frame)} bytes)")
+        self.rig.pipe.feed(frame[:cut])
+        self.rig.quiesce(0.5)
+        self.ctx.count("link_lost_inside_a_frame")
+
     def ev_peer_close(self):
         self.open_req = None
+        if self.connected and self.ctx.rng.random() < 0.4:
+            self.feed_partial_frame()
         self.hist.append("peer_close")
         self.rig.pipe.peer_close()
         if not self.rig.pipe.wait_closed(5.0):
@@ -141,6 +155,8 @@ class Run:
 
     def ev_disable_enable(self):
         self.open_req = None
+        if self.connected and self.ctx.rng.random() < 0.3:
+            self.feed_partial_frame()
         self.hist.append("disable+enable")
         done = threading.Event()
 
